@@ -319,6 +319,19 @@ func projects(root string, seed int64) []*project {
 		"gqlgen.yml": "schema:\n  - \"*.graphql\"\nexec:\n  filename: graph/generated.go\n  package: graph\nfederation:\n  filename: graph/federation.go\n  package: graph\n  version: 2\n" +
 			"model:\n  filename: graph/model/models_gen.go\n  package: model\nresolver:\n  layout: follow-schema\n  dir: graph\n  package: graph\nskip_mod_tidy: true\nskip_validation: true\n",
 	}})
+	// follow-schema resolvers for types whose names the Go-name normaliser rewrites (ApiUser ->
+	// APIUser, UserId -> UserID, line_item -> LineItem): the accessor written by the first run must
+	// be recognised as already present by the second
+	ps = append(ps, &project{Name: "rfsnames", Kind: "resolver-follow-schema", Dirs: []string{"graph"}, Files: map[string]string{
+		"schema.graphql": `directive @goField(forceResolver: Boolean, name: String, omittable: Boolean, type: String) on INPUT_FIELD_DEFINITION | FIELD_DEFINITION
+type Query { apiUser: ApiUser userId: UserId item: line_item }
+type ApiUser { id: ID! name: String @goField(forceResolver: true) }
+type UserId { v: Int @goField(forceResolver: true) }
+type line_item { sku: String @goField(forceResolver: true) }
+`,
+		"gqlgen.yml": "schema:\n  - \"*.graphql\"\nexec:\n  filename: graph/generated.go\n  package: graph\n" +
+			"model:\n  filename: graph/model/models_gen.go\n  package: model\nresolver:\n  layout: follow-schema\n  dir: graph\n  package: graph\nskip_mod_tidy: true\nskip_validation: true\n",
+	}})
 	return ps
 }
 
